@@ -317,6 +317,12 @@ def field_edges_rows(rows, rng):
     for r in rows:
         r["x"], r["y"], r["z"] = round(r["x"] + shift[0], 3), round(r["y"] + shift[1], 3), round(r["z"] + shift[2], 3)
     desc["translated-by"] = shift
+    if rng.random() < 0.4:
+        # residue names of the four RNA bases in lower case (some programs write them so)
+        for r in rows:
+            if r["resname"] in ("A", "C", "G", "U"):
+                r["resname"] = r["resname"].lower()
+        desc["lower-case-residue-names"] = True
     num = rng.choice([0, 0, -40, -7, -998])
     if num:
         low = min(r["resseq"] for r in rows)
@@ -624,7 +630,16 @@ def run_case(prop, case, rec, call):
         rec.mark_nontrivial(n > 0)
         # what is annotated for the FILE must be what is annotated for the atoms written into it: the same table as
         # an in-memory structure (letters as the reader decided them), same coordinates to the last bit
-        twin = structure_from_rows(rows, s)
+        # one-letter names of the twin: the base a standard residue name stands for (whatever its letter case), the
+        # reader's own decision for every other residue
+        order, std = [], {"A": "A", "C": "C", "G": "G", "U": "U", "DA": "A", "DC": "C", "DG": "G", "DT": "T", "T": "T"}
+        for r in rows:
+            k = (r["chain"], r["resseq"], r["icode"], r["resname"])
+            if r["model"] == rows[0]["model"] and k not in order:
+                order.append(k)
+        by_read = {(r.auth.chain, r.auth.number, r.auth.icode): r.one_letter_name for r in s.residues if r.auth is not None}
+        letters = [std.get(k[3].upper()) or by_read.get((k[0], k[1], k[2]), k[3][-1:]) for k in order]
+        twin = structure_from_rows(rows, s, letters_in_order=letters)
         mon3d._cur["ctx"] = dict(desc, twin="in-memory structure of the written table")
         try:
             a, b = _interaction_keys(s, prop), _interaction_keys(twin, prop)
